@@ -177,6 +177,7 @@ def finalBlock (st : St) (s : CSys) (how : String) (eng : Eng CEng) (audit : Tic
    [ "shutdown_audit " ++ tickTag st.k audit,
      s!"seq {eng.seq}",
      s!"processed {s.processed.length}",
+     s!"seq_off {(eng.seq : Int) - (s.processed.length : Int)}",
      s!"disabled_calls {eng.state.eng.disabledCalls}",
      s!"disconnects {eng.state.disconnects}" ] ++
    obsEng false eng.state.eng ++
@@ -343,14 +344,23 @@ def spec : Drv SpecSt where
           if s.dead || s.fatalPending then ({ s with gone := true }, []) else
           let handle := s.handle ++ [Ev.shutdown]
           ({ s with gone := true },
-           [ "res " ++ how, "h " ++ joinOr (s.newH ++ ["H:shutdown"]), "shutdown_audit H:shutdown",
+           -- `m` / `a` EMPTY: nothing is processed behind the `Shutdown`, and in front of it only what
+           -- the handle itself enqueued since the last await (`Props.C20S.final_segment_no_stream_events`,
+           -- `nothing_after_stop`; oracle review C20S-H1)
+           [ "res " ++ how, "h " ++ joinOr (s.newH ++ ["H:shutdown"]), "m ", "a ", "shutdown_audit H:shutdown",
+             -- the sequence number counts exactly the processed events, +1 for the audit snapshot
+             -- (`IsFoldOf`, `Props.C20S.engine_is_fold` / `refines_spec`)
+             s!"seq_off {seq0 (if s.audit then .enabled else .disabled)}",
              s!"disabled_calls {specDisabledCalls s.trading0 handle}",
              "trading " ++ (if specTrading s.trading0 handle then "on" else "off"),
              "own 1" ] ++ specAuditLines s)
         else if how == "join" then
           if !s.dead then ({ s with gone := true }, []) else
           ({ s with gone := true },
-           [ "res join",
+           -- the engine had stopped before the last observation: nothing more was processed
+           -- (`Props.C20S.nothing_after_stop`)
+           [ "res join", "h ", "m ", "a ",
+             s!"seq_off {seq0 (if s.audit then .enabled else .disabled)}",
              s!"disabled_calls {specDisabledCalls s.trading0 s.handle}",
              "trading " ++ (if specTrading s.trading0 s.handle then "on" else "off"),
              "own 1" ] ++ specAuditLines s)
